@@ -1,0 +1,201 @@
+//go:build verif
+
+package swap
+
+// Verification hooks (build tag verif). Add-only: read-only views of the state
+// tables and helpers, a controllable timeout service, and accessors that let an
+// external harness drive the real SwapService / SwapStateMachine.
+
+import (
+	"context"
+	"reflect"
+	"sort"
+	"sync"
+	"time"
+)
+
+// VerifAction is the reflected shape of an Action value: its Go type name and,
+// for wrapper actions, the wrapped action(s) (fields of interface type Action).
+type VerifAction struct {
+	Name     string
+	Children []*VerifAction
+}
+
+type VerifState struct {
+	Name          string
+	Action        *VerifAction // nil when the state has no action
+	Events        [][2]string  // sorted (event, next state)
+	FailOnrecover bool
+}
+
+func verifDumpStates(states States) []VerifState {
+	names := []string{}
+	for n := range states {
+		names = append(names, string(n))
+	}
+	sort.Strings(names)
+	out := []VerifState{}
+	for _, n := range names {
+		st := states[StateType(n)]
+		vs := VerifState{Name: n, FailOnrecover: st.FailOnrecover}
+		if st.Action != nil {
+			// need an addressable copy for struct-valued actions
+			vs.Action = verifActionTreeAddr(st.Action)
+		}
+		evs := []string{}
+		for e := range st.Events {
+			evs = append(evs, string(e))
+		}
+		sort.Strings(evs)
+		for _, e := range evs {
+			vs.Events = append(vs.Events, [2]string{e, string(st.Events[EventType(e)])})
+		}
+		out = append(out, vs)
+	}
+	return out
+}
+
+// verifActionTreeAddr handles actions stored by value (e.g.
+// CheckRequestWrapperAction{...}) by copying them into addressable memory.
+func verifActionTreeAddr(a Action) *VerifAction {
+	v := reflect.ValueOf(a)
+	if v.Kind() != reflect.Ptr {
+		p := reflect.New(v.Type())
+		p.Elem().Set(v)
+		return verifActionTreeValue(p.Elem())
+	}
+	if v.IsNil() {
+		return nil
+	}
+	return verifActionTreeValue(v.Elem())
+}
+
+func verifActionTreeValue(v reflect.Value) *VerifAction {
+	out := &VerifAction{Name: v.Type().Name()}
+	actionType := reflect.TypeOf((*Action)(nil)).Elem()
+	if v.Kind() == reflect.Struct {
+		for i := 0; i < v.NumField(); i++ {
+			f := v.Field(i)
+			if f.Type() == actionType && !f.IsNil() {
+				child := reflect.NewAt(f.Type(), f.Addr().UnsafePointer()).Elem().Interface().(Action)
+				out.Children = append(out.Children, verifActionTreeAddr(child))
+			}
+		}
+	}
+	return out
+}
+
+// VerifTables returns the four state tables keyed "type/role".
+func VerifTables() map[string][]VerifState {
+	return map[string][]VerifState{
+		"swap_out_sender":   verifDumpStates(getSwapOutSenderStates()),
+		"swap_out_receiver": verifDumpStates(getSwapOutReceiverStates()),
+		"swap_in_sender":    verifDumpStates(getSwapInSenderStates()),
+		"swap_in_receiver":  verifDumpStates(getSwapInReceiverStates()),
+	}
+}
+
+// VerifIsFinished evaluates IsFinished on a state name.
+func VerifIsFinished(state string) bool {
+	return (&SwapStateMachine{Current: StateType(state)}).IsFinished()
+}
+
+type VerifTimelock struct {
+	CSV, PaymentWindow   uint32
+	InvoiceFinalCLTV     uint64
+	MaxTotalCLTVDelta    uint32
+	AllowNewClaimPayment bool
+	Err                  bool
+}
+
+// VerifTimelockPolicy evaluates getTimelockPolicy for a swap-out request with
+// the given chain ("btc"/"lbtc") and protocol version.
+func VerifTimelockPolicy(chain string, version uint8) VerifTimelock {
+	req := &SwapOutRequestMessage{ProtocolVersion: version}
+	if chain == btc_chain {
+		req.Network = "regtest"
+	} else if chain == l_btc_chain {
+		req.Asset = "00"
+	}
+	d := &SwapData{SwapOutRequest: req}
+	p, err := d.getTimelockPolicy()
+	return VerifTimelock{p.CSV, p.PaymentWindow, p.InvoiceFinalCLTV, p.MaxTotalCLTVDelta, p.AllowNewClaimPayment, err != nil}
+}
+
+const VerifLegacyProtocolVersion = legacyProtocolVersion
+
+func VerifCheckPaymentWindow(set bool, start, current uint32, window uint32) bool {
+	d := &SwapData{StartingBlockHeight: start, StartingBlockHeightSet: set}
+	return checkPaymentWindow(d, current, timelockPolicy{PaymentWindow: window}) == nil
+}
+
+func VerifValidateClaimInvoice(msat uint64, cltv int64, claimSat uint64, finalCLTV uint64) bool {
+	return validateClaimInvoice(msat, cltv, claimSat, timelockPolicy{InvoiceFinalCLTV: finalCLTV}) == nil
+}
+
+// ---- controllable timeout service ----
+
+type VerifTimeouts struct {
+	mu    sync.Mutex
+	Armed []string
+	OnArm func(id string, d time.Duration)
+	cbf   callbackFactory
+}
+
+func (t *VerifTimeouts) addNewTimeOut(ctx context.Context, d time.Duration, id string) {
+	t.mu.Lock()
+	t.Armed = append(t.Armed, id)
+	f := t.OnArm
+	t.mu.Unlock()
+	if f != nil {
+		f(id, d)
+	}
+}
+
+// Fire runs the timeout callback of the service for the swap id.
+func (t *VerifTimeouts) Fire(id string) { t.cbf(id)() }
+
+func (t *VerifTimeouts) ArmedCount() int {
+	t.mu.Lock()
+	defer t.mu.Unlock()
+	return len(t.Armed)
+}
+
+// VerifStart is Start() with the timeout service replaced by a controllable one.
+func (s *SwapService) VerifStart() (*VerifTimeouts, error) {
+	if err := s.Start(); err != nil {
+		return nil, err
+	}
+	to := &VerifTimeouts{cbf: s.createTimeoutCallback}
+	s.swapServices.toService = to
+	return to, nil
+}
+
+func (s *SwapService) VerifActiveIds() []string {
+	s.RLock()
+	defer s.RUnlock()
+	ids := []string{}
+	for id := range s.activeSwaps {
+		ids = append(ids, id)
+	}
+	sort.Strings(ids)
+	return ids
+}
+
+func (s *SwapService) VerifActiveSwap(id string) *SwapStateMachine {
+	s.RLock()
+	defer s.RUnlock()
+	return s.activeSwaps[id]
+}
+
+func (s *SwapService) VerifLockSwap(swapId, channelId string, fsm *SwapStateMachine) error {
+	return s.lockSwap(swapId, channelId, fsm)
+}
+
+func (s *SwapService) VerifIsMessageSenderExpectedPeer(sender string, id *SwapId) (bool, error) {
+	return s.isMessageSenderExpectedPeer(sender, id)
+}
+
+func (sm *SwapStateMachine) VerifRetries() int { return sm.retries }
+
+func VerifValidateScid(scid string) bool { return validateScid(scid) == nil }
